@@ -5,7 +5,46 @@ V = os.path.dirname(os.path.dirname(os.path.abspath(__file__)))
 COMMON_NOTE = ("Trusted: Coq 8.16.1 kernel (vm_compute used, native_compute not); no axioms (every theorem 'Closed under the "
                "global context', re-printed on each run); extraction with ExtrOcamlBasic only + runner/driver.ml, cross-checked "
                "against vm_compute on a sample of each run's cases; the Python differential harness. ")
+POOLNOTE = "Modelled, not verified: the pool as a labelled transition system (Model/Pool.v) at the granularity of operations visible to another thread/process (queue put/get, the two progress flags, event set/clear/wait, thread and process start/join); thread-local work between two such operations is folded into the adjacent step (reduction argument in DESIGN.md); the functor is uninterpreted. Tie: the UNMODIFIED pool code is run under a controlled cooperative scheduler on a fake multiprocessing context (harness/sched.py: manager queues, locks, events, processes-as-threads; every operation a scheduling point, deadlock detected structurally); its visible operations are mapped to model events and the extracted model must ACCEPT the whole trace and end in the same observable state (trace acceptance), while the property oracle is evaluated on the implementation's own run. Real OS processes, pickling, and CPython's GIL atomicity of single attribute loads/stores are assumed, not modelled. "
 CLAIMS = {
+ "C01": dict(text="Coq theorems for EVERY configuration (workers, queue bounds, factory, quota), EVERY history of calls on one pool and EVERY "
+             "schedule (arbitrary list of events of the LTS): the consumer never raises; the calls completed so far yielded exactly their "
+             "input in order (imap) resp. a chunk-wise rearrangement of it, each chunk whole and exactly once (imap_unordered, hence a "
+             "permutation); the conservation invariant (every chunk index handed out is, exactly once, either yielded or in flight with "
+             "the right payload); nothing is left in any queue, worker or buffer when a call is over. Tied to /repo by trace acceptance over "
+             "hundreds of controlled schedules per run (random and adversarial policies).",
+             note=POOLNOTE,
+             tech="Coq proof: inductive invariant over an LTS (Permutation conservation + reorder-buffer drain lemma), history-level refinement; trace-acceptance correspondence under a controlled scheduler",
+             ref="DESIGN.md §4 C01-C04"),
+ "C02": dict(text="Coq theorems: in every reachable state inside the calls some thread or process can move (deadlock freedom: consumer never "
+             "blocked on a result that will not come, paused feeder always resumed, full queues drained, retired workers replaced) for EVERY "
+             "configuration of the property; a natural-number measure that EVERY step decreases (no infinite run; explicit bound on the number "
+             "of steps); hence under every scheduler (any function picking an enabled event when one exists) every call of the history "
+             "terminates with exactly its results; the pool context can be left (MDone reached) under the stated capacity condition "
+             "exit_cap_ok. Outside that condition the statement is REFUTED by a machine-checked witness (C02_exit_hang_refuted) that the "
+             "harness replays on the real code: open known finding F4'. Tied to /repo by trace acceptance; hangs of the implementation are "
+             "detected structurally by the scheduler (no enabled thread).",
+             note=POOLNOTE + "Late items / late StopIteration of the input iterable are modelled as the feeder not being scheduled. Timeouts (join_timeout) are outside the property.",
+             tech="Coq proof: deadlock freedom from six inductive invariants (conservation, flow control, replace-token accounting, pending-replacement, exit-order accounting), strictly decreasing potential function, refutation witness by vm_compute; trace-acceptance correspondence under a controlled scheduler",
+             ref="DESIGN.md §4 C01-C04"),
+ "C03": dict(text="Coq theorems over all histories of calls on one pool instance (ordered / unordered / empty / until_all_ready in any order) and all "
+             "schedules incl. every interleaving of retiring workers and the replace thread: call k of the history is matched with the k-th "
+             "result list and each is exactly right (nothing leaks between calls); between calls nothing is in flight; no stop token of the replace "
+             "thread is ever left behind and the thread is never left stopped; every worker that left its loop is pending replacement exactly once; "
+             "with work pending and room for results some worker or the replace thread can always move (the pool never runs out of workers). "
+             "Tied to /repo by trace acceptance over multi-call histories with quotas 1..3.",
+             note=POOLNOTE,
+             tech="Coq proof: history-indexed invariant (Forall2 over completed calls), replace-token accounting, NoDup pending-replacement invariant, progress lemma; trace-acceptance correspondence under a controlled scheduler",
+             ref="DESIGN.md §4 C01-C04"),
+ "C04": dict(text="Coq theorems for EVERY schedule, fault events included (begin() raises in any worker, the functor raises on any chunk): every "
+             "worker ever started (replaced ones too) has a log of the form begin, chunks*, [end] - begin at most once and first, end at most "
+             "once and last, end exactly in finished workers; a worker with quota k takes at most k chunks; replaced workers are finished; once "
+             "the pool context has been left every worker is finished; until_all_ready returns only in states where every current worker's "
+             "begin() completed normally; a raising begin() never sets the flag; after a fault the worker's end step is always enabled. "
+             "Tied to /repo by trace acceptance with injected begin/functor faults and per-worker lifecycle logs of an instrumented subclass.",
+             note=POOLNOTE + "end() raising is outside the property.",
+             tech="Coq proof: per-worker lifecycle invariant (log shape, quota arithmetic) over all events incl. faults, exit-join invariant; trace-acceptance correspondence with fault injection",
+             ref="DESIGN.md §4 C01-C04"),
  "C15": dict(text="Coq theorems over all feeds/permutations/drain points (Buffer, PrintBuffer) and all capacities and put/clear "
              "sequences (CircularBuffer) about an executable model; the model is tied to /repo on every run by differential "
              "execution (exhaustive small scope + random) of the extracted model and the real classes.",
